@@ -26,6 +26,7 @@ type C06Case struct {
 	IncOpts  int   `json:"incopts"`        // options on the sandboxed include itself: bit0 with, bit1 only
 	Order    int   `json:"order,omitempty"` // 0: with, only, sandboxed; 1-6: `ignore missing` added and the options written in another order
 	Custom   bool  `json:"custom"`         // harness policy type instead of DefaultSecurityPolicy
+	Embed    bool  `json:"embed,omitempty"` // a policy type that embeds a DefaultSecurityPolicy (whose tables say the opposite about the spy) and overrides its methods
 	Deny     bool  `json:"deny,omitempty"` // the refused names are listed in the policy with the value false instead of being absent
 	// second arm (checkC06Named): an explicit occurrence and the names the policy refuses,
 	// "f:<name>" for a function, "|<name>" for a filter; built-in names included
@@ -261,11 +262,32 @@ func c06Policy(c C06Case, allowSpy bool) twig.SecurityPolicy {
 		p.AllowedFilters["forbid"] = false
 		p.AllowedFunctions["forbid_fn"] = false
 	}
+	if c.Embed {
+		inner := twig.NewDefaultSecurityPolicy()
+		for k, v := range p.AllowedFilters {
+			inner.AllowedFilters[k] = v
+		}
+		for k, v := range p.AllowedFunctions {
+			inner.AllowedFunctions[k] = v
+		}
+		inner.AllowedFilters["forbid"], inner.AllowedFunctions["forbid_fn"] = !allowSpy, !allowSpy
+		return embedPolicy{inner, p.AllowedFilters, p.AllowedFunctions}
+	}
 	if c.Custom {
 		return customPolicy{p.AllowedFilters, p.AllowedFunctions}
 	}
 	return p
 }
+
+// embedPolicy embeds the default policy and answers the two questions itself; the embedded tables
+// say the opposite about the spy.
+type embedPolicy struct {
+	*twig.DefaultSecurityPolicy
+	filters, functions map[string]bool
+}
+
+func (p embedPolicy) IsFunctionAllowed(n string) bool { return p.functions[n] }
+func (p embedPolicy) IsFilterAllowed(n string) bool   { return p.filters[n] }
 
 var c06Ctx = map[string]interface{}{"x": "Val", "y2": 1, "xs": []interface{}{3, 1, 2}, "t": true, "nul": nil, "mp": map[string]interface{}{"k": 1}}
 
@@ -664,13 +686,13 @@ func TestC06Flip(t *testing.T) {
 	})
 }
 
-const c06Rule = "a forbidden spy filter or function written in one of 30 (filter) / 30 (function) syntactic positions (also as the subject of default and `is defined`), reached from `include 'inner' sandboxed` (optionally with/only/ignore missing in 7 orders, placed at top level, in a loop, condition, block or macro of the unsandboxed template) through a chain of 0-3 carriers out of 16 (top-level code of an imported library (import as / from import), include, include only, include with, extends with override, extends with the occurrence in the parent, parent(), import-as + call, from-import + call, local macro, apply, for, if, block, set) under DefaultSecurityPolicy or a harness policy type, the refused name absent from the policy's maps or (1 case in 3) listed there with the value false; non-trivial = the occurrence is live (the spy runs when the include is not sandboxed) and it is not the head of a print tag directly in the sandboxed template; distinct by case parameters"
+const c06Rule = "a forbidden spy filter or function written in one of 30 (filter) / 30 (function) syntactic positions (also as the subject of default and `is defined`), reached from `include 'inner' sandboxed` (optionally with/only/ignore missing in 7 orders, placed at top level, in a loop, condition, block or macro of the unsandboxed template) through a chain of 0-3 carriers out of 16 (top-level code of an imported library (import as / from import), include, include only, include with, extends with override, extends with the occurrence in the parent, parent(), import-as + call, from-import + call, local macro, apply, for, if, block, set) under DefaultSecurityPolicy, a harness policy type, or a type that embeds a DefaultSecurityPolicy and overrides its answers, the refused name absent from the policy's maps or (1 case in 3) listed there with the value false; non-trivial = the occurrence is live (the spy runs when the include is not sandboxed) and it is not the head of a print tag directly in the sandboxed template; distinct by case parameters"
 
 func TestC06Sandbox(t *testing.T) {
 	r := NewRec(t, "C06", c06Rule)
 	defer r.Flush()
 	rapid.Check(t, func(rt *rapid.T) {
-		c := C06Case{Fn: rapid.Bool().Draw(rt, "fn"), MainWrap: rapid.IntRange(0, 4).Draw(rt, "mainwrap"), IncOpts: rapid.IntRange(0, 3).Draw(rt, "incopts"), Order: rapid.SampledFrom([]int{0, 0, 1, 2, 3, 4, 5, 6}).Draw(rt, "order"), Custom: rapid.IntRange(0, 3).Draw(rt, "custom") == 0, Deny: rapid.IntRange(0, 2).Draw(rt, "deny") == 0}
+		c := C06Case{Fn: rapid.Bool().Draw(rt, "fn"), MainWrap: rapid.IntRange(0, 4).Draw(rt, "mainwrap"), IncOpts: rapid.IntRange(0, 3).Draw(rt, "incopts"), Order: rapid.SampledFrom([]int{0, 0, 1, 2, 3, 4, 5, 6}).Draw(rt, "order"), Custom: rapid.IntRange(0, 3).Draw(rt, "custom") == 0, Deny: rapid.IntRange(0, 2).Draw(rt, "deny") == 0, Embed: rapid.IntRange(0, 4).Draw(rt, "embed") == 0}
 		if c.Fn {
 			c.Pos = rapid.IntRange(0, len(c06FuncPos)-1).Draw(rt, "pos")
 		} else {
@@ -745,6 +767,7 @@ func TestC06Matrix(t *testing.T) {
 				}
 				run(C06Case{Pos: pos, Fn: fn, IncOpts: opts, Deny: true})
 				run(C06Case{Pos: pos, Fn: fn, IncOpts: opts, Deny: true, Custom: true})
+				run(C06Case{Pos: pos, Fn: fn, IncOpts: opts, Embed: true})
 				for k := range c06CarrierNames {
 					run(C06Case{Pos: pos, Fn: fn, IncOpts: opts, Carriers: []int{k}})
 				}
